@@ -601,3 +601,94 @@ func (r *Runner) InsertRace(k int) {
 	r.Batches++
 	r.TW.Emit("InsertRace", M{"batches": abs, "oks": oks, "P": r.proj()})
 }
+
+// WriteRace issues k write requests of random kinds at the same time; their id
+// sets are pairwise disjoint, so every order of them gives the same state.
+func (r *Runner) WriteRace(k int) {
+	if r.Cfg.Mem {
+		return
+	}
+	used := map[int]bool{}
+	type op struct {
+		b    Batch
+		ok   int
+		real []models.Point
+	}
+	var ops []op
+	for tries := 0; len(ops) < k && tries < 6*k; tries++ {
+		b := r.GenBatch()
+		clash := false
+		ids := append([]int{}, b.IDs...)
+		seen := map[int]bool{}
+		for _, p := range b.Pts {
+			if seen[p.ID] {
+				clash = true // (no id twice inside one request of a race)
+			}
+			seen[p.ID] = true
+			ids = append(ids, p.ID)
+		}
+		for _, id := range ids {
+			if used[id] {
+				clash = true
+			}
+		}
+		if clash || len(ids) == 0 {
+			continue
+		}
+		for _, id := range ids {
+			used[id] = true
+		}
+		ops = append(ops, op{b: b, real: realBatch(b.Pts)})
+	}
+	if len(ops) < 2 {
+		return
+	}
+	var wg sync.WaitGroup
+	start := make(chan struct{})
+	for i := range ops {
+		wg.Add(1)
+		go func(o *op) {
+			defer wg.Done()
+			<-start
+			var err error
+			switch o.b.Kind {
+			case "insert":
+				err = r.Shard.InsertPoints(o.real)
+			case "update":
+				_, err = r.Shard.UpdatePoints(o.real)
+			default:
+				set := map[uuid.UUID]struct{}{}
+				for _, id := range o.b.IDs {
+					set[UUIDOf(id)] = struct{}{}
+				}
+				_, err = r.Shard.DeletePoints(set)
+			}
+			if err == nil {
+				o.ok = 1
+			}
+		}(&ops[i])
+	}
+	close(start)
+	wg.Wait()
+	var log []M
+	for _, o := range ops {
+		log = append(log, M{"kind": o.b.Kind, "pts": absBatch(o.b.Pts), "ids": append([]int{}, o.b.IDs...), "ok": o.ok})
+		if o.ok == 1 && !r.Trial {
+			switch o.b.Kind {
+			case "insert":
+				for _, p := range o.b.Pts {
+					r.believedLive[p.ID] = true
+				}
+				r.remember(o.b.Pts, false)
+			case "update":
+				r.remember(o.b.Pts, true)
+			default:
+				for _, id := range o.b.IDs {
+					delete(r.believedLive, id)
+				}
+			}
+		}
+	}
+	r.Batches++
+	r.TW.Emit("WriteRace", M{"ops": log, "P": r.proj()})
+}
